@@ -1,0 +1,5 @@
+//go:build !verif
+
+package faults
+
+func verifPoint(string, string, Parameters) {}
